@@ -311,6 +311,26 @@ func c04One(c *mon.Ctx, layout string, n int, closed bool, genSeed int64, nq int
 				cmp("Move(Poly).ContainsPoint", ms.poly.ContainsPoint(mp), mref.poly.ContainsPoint(mp))
 				cmp("Move(Line).ContainsPoint", ms.line.ContainsPoint(mp), mref.line.ContainsPoint(mp))
 			}
+			// runs of the line's own vertices (a line that retraces itself covers a run more than once)
+			for k := 0; k < 8 && len(pts) >= 3; k++ {
+				i0, ln := r.Intn(len(pts)-1), 2+r.Intn(4)
+				var run []geometry.Point
+				for j := 0; j < ln && i0+j < len(pts); j++ {
+					run = append(run, pts[i0+j])
+				}
+				if k%2 == 1 {
+					for a, b := 0, len(run)-1; a < b; a, b = a+1, b-1 {
+						run[a], run[b] = run[b], run[a]
+					}
+				}
+				if k%4 >= 2 {
+					// start inside the first segment of the run
+					run[0] = geometry.Point{X: run[0].X/2 + run[1].X/2, Y: run[0].Y/2 + run[1].Y/2}
+				}
+				sub := geometry.NewLine(run, ic.Opts())
+				cmp("Line.ContainsLine(run of its own vertices)", s.line.ContainsLine(sub), ref.line.ContainsLine(sub))
+			}
+			cmp("Line.ContainsLine", s.line.ContainsLine(o.line), ref.line.ContainsLine(oref.line))
 			cmp("Poly.IntersectsLine", s.poly.IntersectsLine(o.line), ref.poly.IntersectsLine(oref.line))
 			cmp("Line.IntersectsLine", s.line.IntersectsLine(o.line), ref.line.IntersectsLine(oref.line))
 			cmp("Poly.IntersectsPoly", s.poly.IntersectsPoly(o.poly), ref.poly.IntersectsPoly(oref.poly))
